@@ -56,6 +56,28 @@ CHECKS = {
         note=COMMON_NOTE + " Names: an inner name may be dropped where the column was advanced; in the no-inner-mapping case the name is not constrained.",
         technique="TLA+ declarative map composition + TLC trace validation",
     ),
+    "C10": dict(
+        text="Call histories over a CachedSource, a clone sharing its cache and a parent ConcatSource (final-source cache key) are replayed; the "
+             "object machine tracks which cache keys are filled and how (by map / by stream), and TLC compares every answer (text, size, end, "
+             "per-position attribution, hash stability) with the answers recorded from the uncached wrapped tree. All histories up to the "
+             "tier's length over six wrapped trees are enumerated by TLC.",
+        note=COMMON_NOTE + " Wrapped trees with a CachedSource beneath a ReplaceSource are outside the comparison (their own answers depend on history, known finding K1).",
+        technique="TLA+ object machine (cache state) + transparency predicate + TLC trace validation of enumerated histories",
+    ),
+    "C14": dict(
+        text="Pairs built from the same constructor calls, pairs one edit apart and clones are compared (dyn and typed ==, hashes) before, between "
+             "and after observer calls on one operand; TLC keeps the last answers per register and checks symmetry, stability, "
+             "equal => same hash and same answers, and repeatability of every observer.",
+        note=COMMON_NOTE + " Known finding K1b (ReplaceSource over CachedSource: original columns change once the cache is filled).",
+        technique="TLA+ object machine with remembered answers + TLC trace validation of histories",
+    ),
+    "C20": dict(
+        text="Gen.tla enumerates every single edit (Edits) of every listed kind at every node of 14 base trees plus all pairs of base trees; for "
+             "pairs whose source/buffer/map really differ TLC requires different hashes and inequality; the hash of a tree is recomputed in a "
+             "second thread and a second process and after observer histories.",
+        note=COMMON_NOTE + " 64-bit collisions are outside the model.",
+        technique="TLA+ edit enumeration + TLC trace validation; cross-process reproducibility",
+    ),
     "C12": dict(
         text="encode_mappings / decode_mappings are run on every mapping sequence of a small exhaustive domain, on big-value pairs per field, "
              "on grammar strings spelled by the specification (redundant continuation digits, empty segments, backward columns) and on all "
